@@ -398,7 +398,8 @@ def main():
     logs = [logs[k] for k in sorted(logs)]
     chk.rule = ("TLC explores every scenario of Cache.tla (identical repeats, every single-parameter change r->r'->r with and without process boundaries, "
                 "halo None/explicit-default/other, corrupt entries) with a crash at every step (<= 2 crashes) and emits the log of every complete behaviour; "
-                "each distinct log is executed on the real solver with a real cache directory; distinct = distinct logs")
+                "each distinct log is executed on the real solver with a real cache directory; in addition TLC simulates histories of 7 requests drawn from the whole "
+                "request space (MC_Cache_sim) and each is executed the same way; distinct = distinct logs")
     refs = {}
     tracefile = os.path.join(common.scratch("trace_raw_C15"), "events.ndjson")
     os.environ["BLDFM_VERIF_TRACE"] = tracefile
@@ -418,7 +419,22 @@ def main():
         nreq += run_log(chk, logs[i], refs, work, 0.5, "log%d" % i)
         if len(chk.violations) > 40:
             break
-    chk.traces = len(pick)
+    # simulation mode of the same specification: long random histories over the WHOLE request space (2^11 x 4 requests),
+    # process boundaries, corruption of the entry just used, up to 3 crashes; invariants evaluated by TLC in every state
+    nsim = 40 if t == "quick" else 1500
+    rs_ = run_tlc("Cache", "MC_Cache_sim", workers=1, simulate="num=%d" % nsim, extra=["-depth", "120", "-seed", str(seed())], name="MC_Cache_sim", timeout=1500)
+    chk.add_tlc("MC_Cache_sim", rs_)
+    if not rs_.ok:
+        raise MachineryError("MC_Cache_sim: %s violated in simulation of the repaired design" % rs_.violated)
+    simlogs = [e["log"] for e in rs_.emitted]
+    for i, lg in enumerate(simlogs):
+        chk.case(json.dumps(lg, sort_keys=True))
+        nreq += run_log(chk, lg, refs, work, 0.5, "sim%d" % i)
+        if len(chk.violations) > 40:
+            break
+    chk.extra["simulated_histories_replayed"] = len(simlogs)
+    chk.extra["distinct_requests_executed"] = len(refs)
+    chk.traces = len(pick) + len(simlogs)
     chk.extra["behaviours_from_tlc"] = len(logs)
     chk.extra["behaviours_replayed"] = len(pick)
     chk.extra["requests_executed"] = nreq
